@@ -53,7 +53,9 @@ fn do_same(ctx: &mut Ctx, f: &[BigInt], g: &[BigInt]) {
 }
 /// process level: `rust-number-theory <config>` with to_find = integral_basis ⇒ `reduced_index discriminant`
 fn do_cli(ctx: &mut Ctx, f: &[BigInt]) {
-    let cfg = format!("to_find = ['integral_basis']\n[input]\npolynomials = {}\n", toml_polys(&[f], variant_of(&[show_ints(f)])));
+    let v = variant_of(&[show_ints(f)]);
+    let before: &[&str] = if v >= 3 { &["resultant", "prime-decomposition"] } else { &["prime-decomposition", "factorization-mod-p"] };
+    let cfg = format!("to_find = {}\n[input]\npolynomials = {}\n", to_find_list("integral_basis", before, v), toml_polys(&[f], v));
     if let Some(out) = run_cli(&cfg) {
         let ans = if out.starts_with("panic") {
             out
